@@ -80,9 +80,16 @@ def linear_loop(ctx: Ctx, rep: Report, f: Func, loop: Node, what: str, allow_zer
         rep.violation(f.qualname, what, "no feasible path through the loop body", where(f, loop.ast))
 
 
+def _group_func(ctx: Ctx) -> Func:
+    """Acl.group with statement-level list comprehensions written out as loops (same elements, same order)."""
+    from .normalise import normalised
+
+    return normalised(ctx, ctx.func("Acl.group"), "decomp")
+
+
 def r15_1(ctx: Ctx, rep: Report) -> None:
     rep.rule("R15.1")
-    g = ctx.func("Acl.group")
+    g = _group_func(ctx)
     cfg = ctx.cfg(g)
     loops = [n for n in cfg.live if n.kind == "for"]
     rep.require(len(loops) >= 3, "Acl.group no longer has its three loops (flatten, bucket, build)")
@@ -158,7 +165,7 @@ def _line_getter_flatten(ctx: Ctx, rep: Report, f: Func, loop: Node) -> None:
 
 def r15_2(ctx: Ctx, rep: Report) -> None:  # noqa: C901
     rep.rule("R15.2")
-    g = ctx.func("Acl.group")
+    g = _group_func(ctx)
     cfg = ctx.cfg(g)
     # bucket dict: subscript-stored with a list literal
     dict_name = None
@@ -377,7 +384,7 @@ def r15_6(ctx: Ctx, rep: Report) -> None:
     rets = [n for n in cfg.live if n.kind == "stmt" and isinstance(n.ast, ast.Return) and n.ast.value is not None]
     counter = src(rets[0].ast.value) if rets else "counter"
 
-    def side_ok(e: Optional[ast.AST]) -> bool:
+    def side_ok(e: Optional[ast.AST], depth: int = 0) -> bool:
         # 1 | len(<var>.<addr>.items) or 1
         if isinstance(e, ast.Constant) and e.value == 1:
             return True
@@ -386,6 +393,18 @@ def r15_6(ctx: Ctx, rep: Report) -> None:
             if isinstance(b, ast.Constant) and b.value == 1 and isinstance(a, ast.Call) and src(a.func) == "len" and a.args:
                 c = chain(a.args[0])
                 return bool(c) and c[0] == var and c[-1] in ("items", "_items") and "addr" in c[1]
+        if isinstance(e, ast.IfExp):
+            return side_ok(e.body) and side_ok(e.orelse)
+        if isinstance(e, ast.Call) and depth < 2:
+            # per-side count extracted into a helper: every value it can return must be 1 or `len(members) or 1`
+            from .common import _SubstMany, bind_call, callee_of_self_call, clone
+
+            m = callee_of_self_call(ctx, f, e)
+            if m is not None:
+                binding = bind_call(m, e, bound=True)
+                rets = [n for n in own_nodes(m.node) if isinstance(n, ast.Return)]
+                if binding is not None and rets and not (set(binding) & {n.id for n in own_nodes(m.node) if isinstance(n, ast.Name) and isinstance(n.ctx, ast.Store)}):
+                    return all(r.value is not None and side_ok(_SubstMany(binding).visit(clone(r.value)), depth + 1) for r in rets)
         return False
 
     for path in loop_body_paths(cfg, loop):
